@@ -374,6 +374,28 @@ def run(ctx) -> None:
     if nraise < 2:
         raise AnalysisError("Inotify.__init__: fallible calls of the fault model not found")
 
+    # ---------------------------------------------------------------- a finaliser is one more closer, also of half-built instances
+    # (the typestate above interleaves the closers that exist through the API; `__del__` runs whenever the collector decides, also on an
+    # instance whose constructor failed after releasing its descriptors itself)
+    fin = P.find_method("Inotify", "__del__")
+    if fin is not None:
+        reaches = any(e.kind == "call" and (e.extra.get("func") in ("os.close", "self._close_resources", "self.close")) for p in Enumerator(ThreadCfg(P, follow_attrs=False)).run(fin, selfcls="Inotify") for e in p.flat())
+        unmarked = []
+        for p in cpaths:
+            if p.outcome[0] != "raise":
+                continue
+            rel = [i for i, e in enumerate(p.evs) if e.kind == "call" and e.extra.get("func") == "os.close"]
+            marked = any(e.kind == "store" and e.extra.get("attr") == "_closed" and e.extra.get("value") == "True" for e in p.evs)
+            if rel and not marked:
+                unmarked.append(p)
+        ctx.check(
+            not (reaches and unmarked),
+            RC,
+            "Inotify.__del__ after a failed constructor",
+            "`__del__` reaches a release of the descriptors, and the constructor's failure path has already closed them without marking the instance closed: when the collector finalises the half-built instance the descriptors are closed a second time (by then the numbers may belong to another watch)",
+            fin.loc,
+        )
+
     # ---------------------------------------------------------------- close chain
     cr = P.find_method("Inotify", "_close_resources")
     closed_fields = set()
